@@ -104,4 +104,46 @@ Lemma loop_off b x : opt = false -> INV x ->
   lockstep (loop names defs ns b 0 b (ss x)) (loopS names defs K opt ns b 0 b x).
 Proof. intros Ho HI. apply loop_later; [exact HI|now left]. Qed.
 
+(* ---------- the one-pass situation ---------- *)
+Hypothesis Hdist : syms_distinct ns.
+
+Lemma one_pass_fwd b x F T : one_pass b x F T -> labels_ok ns (ss x) -> (2 <= b)%nat ->
+  forall x' n, T = EOk (x', n) -> n = 1%nat /\ F = EOk (ss x', 2%nat).
+Proof.
+  intros (x2 & Hb & HI2 & HT1 & HF1 & HT & HF) Hl Hb2 x' n HTok.
+  assert (E1 : Nat.eqb 1 b = false) by (apply Nat.eqb_neq; lia). rewrite E1 in *.
+  assert (Hl2 : labels_ok ns (ss x2)) by (eapply pass_labels_ok; [exact Hdist|exact Hl|exact HF1]).
+  subst T. pose proof (whole_pass false true x2 HI2) as H.
+  destruct (PS false true x2) as [[xc rc]|] eqn:EC; [|discriminate]. destruct rc; [|discriminate].
+  inversion HTok; subst x' n; clear HTok.
+  destruct (PF true (ss x2)) as [[stc rF]|] eqn:EFc; [|discriminate].
+  destruct H as (x'' & rT & HT' & Hss & _ & Heq & _). inversion HT'; subst x'' rT; clear HT'.
+  rewrite <- (Heq (andb_false_r _)) in EFc. subst stc.
+  assert (ss xc = ss x2) by (eapply pass_fix; [exact Hl2|exact EFc]).
+  split; [reflexivity|]. subst F. rewrite H in *.
+  destruct b as [|[|k]]; try lia. replace (S (S k) - 1)%nat with (S k) by lia. cbn [loop].
+  destruct k as [|k].
+  - change (Nat.eqb 2 2) with true. rewrite EFc. reflexivity.
+  - assert (E2 : Nat.eqb 2 (S (S (S k))) = false) by reflexivity. rewrite E2.
+    rewrite (pass_agree _ _ _ _ _ _ EFc). rewrite EFc. reflexivity.
+Qed.
+
+Lemma one_pass_bwd2 x F T : one_pass 2 x F T ->
+  forall st n, F = EOk (st, n) -> n = 2%nat /\ exists x', T = EOk (x', 1%nat) /\ ss x' = st.
+Proof.
+  intros (x2 & Hb & HI2 & HT1 & HF1 & HT & HF) st n HFok.
+  change (Nat.eqb 1 2) with false in *. subst F T. change (2 - 1)%nat with 1%nat in HFok. cbn [loop] in HFok.
+  change (Nat.eqb 2 2) with true in HFok.
+  pose proof (whole_pass false true x2 HI2) as H.
+  destruct (PF true (ss x2)) as [[stc rF]|] eqn:EFc; [|discriminate]. destruct rF; [|discriminate].
+  inversion HFok; subst st n; clear HFok.
+  destruct H as (x' & rT & HT' & Hss & _ & Heq & _). rewrite HT'. rewrite (Heq (andb_false_r _)).
+  split; [reflexivity|]. exists x'. auto.
+Qed.
+
+Lemma one_pass_b1 x F T : one_pass 1 x F T -> F = EErr /\ exists x2, T = EOk (x2, 1%nat).
+Proof.
+  intros (x2 & Hb & HI2 & HT1 & HF1 & HT & HF). change (Nat.eqb 1 1) with true in *. subst. eauto.
+Qed.
+
 End Loop.
